@@ -237,6 +237,12 @@ class Tensor(SArr):
     def clone(self):
         return _tag(T(real_np.asarray(self).copy()), self._dt)
 
+    def conj(self):
+        return conj(self)
+
+    def vdot(self, other):
+        return vdot(self, other)
+
     def detach(self):
         return self
 
@@ -469,6 +475,32 @@ def matmul(a, b):
     if a.size == 0 or b.size == 0:
         return T(real_np.zeros(real_np.matmul(real_np.zeros(a.shape), real_np.zeros(b.shape)).shape, dtype=int).astype(object))
     return T(real_np.matmul(a, b))
+
+
+def _conj_scalar(v):
+    if isinstance(v, SC):
+        return SC(v.re, arith('-', 0, v.im)).norm()
+    if isinstance(v, (complex, real_np.complexfloating)):
+        return complex(v).conjugate()
+    return v
+
+
+def conj(a):
+    return T(real_np.frompyfunc(_conj_scalar, 1, 1)(real_np.asarray(a))) if real_np.asarray(a).size else T(real_np.asarray(a))
+
+
+def dot(a, b):
+    """torch.dot: plain sum of products (no conjugation)"""
+    a, b = real_np.asarray(a), real_np.asarray(b)
+    tot = 0
+    for x, y in zip(a.reshape(-1), b.reshape(-1)):
+        tot = arith('+', tot, arith('*', x, y))
+    return T(tot)
+
+
+def vdot(a, b):
+    """torch.vdot: the FIRST argument is complex-conjugated"""
+    return dot(conj(a), b)
 
 
 def div(a, b, rounding_mode=None):
@@ -717,6 +749,9 @@ class TorchShim:
     sum = staticmethod(sum_)
     prod = staticmethod(prod)
     matmul = staticmethod(matmul)
+    dot = staticmethod(dot)
+    vdot = staticmethod(vdot)
+    conj = staticmethod(conj)
     div = staticmethod(div)
     cat = staticmethod(cat)
     concat = staticmethod(cat)
